@@ -107,46 +107,7 @@ def run(prog, tier):
                    '%s_LINE must return the energy of its first member %s_LINE; found %s' % (g, first, [p.ret.canon() for p in ps]),
                    why='returns the energy of %s' % first)
     # ---- LB -----------------------------------------------------------------------------------
-    lb = names.group_value['LB']
-    ps = [p for p in by_line.get(lb, []) if p.ret is not None and not p.ret.is_zero()]
-    lb_aliases = sorted(a for a in names.alias if a.startswith('LB') and a[2:].isdigit())
-    lb_required = {names.alias[a] for a in lb_aliases}
-    lb_required = set(sum((names.doublet_members(x) if False else [x] for x in lb_required), []))
-    members_here = None
-    if len(ps) == 1:
-        r = ps[0].ret
-        # collect (line value, shell value) pairs from the symbols
-        import re
-        pairs = set()
-        for s_ in r.n.symbols() | r.d.symbols():
-            m = re.match(r'^CS_FluorLine\(%s,(-?\d+),EdgeEnergy\(%s,(\d+),0\) \+ 1/10,0\)$' % (zname, zname), s_)
-            if m:
-                pairs.add((int(m.group(1)), int(m.group(2))))
-        num = Rat.const(0)
-        den = Rat.const(0)
-        for lval, sh in sorted(pairs):
-            w = Rat.sym('CS_FluorLine(%s,%d,EdgeEnergy(%s,%d,0) + 1/10,0)' % (zname, lval, zname, sh))
-            num = num + Rat.sym('LineEnergy(%s,%d,0)' % (zname, lval)) * w
-            den = den + w
-        shape = bool(pairs) and r.equals(num / den)
-        chk.decide(shape, 'LB-energy', U, 'LineEnergy', 'LB_LINE shape', '%s:%d' % (U, ps[0].ret_node['ln']),
-                   'LB energy is not sum(E_i * CS_i)/sum(CS_i) with CS_i = CS_FluorLine(Z, line_i, EdgeEnergy(Z, shell_i)+0.1)',
-                   why='cross-section-weighted mean over %d members' % len(pairs))
-        members_here = set()
-        for lval, sh in sorted(pairs):
-            nm = names.line_by_value.get(lval)
-            members_here.add(nm)
-            src = names.parse_line(nm)[0] if nm and names.parse_line(nm) else None
-            chk.decide(src is not None and names.shell_value.get(src) == sh, 'LB-member-shell', U, 'lb_pairs', '%s_LINE' % nm,
-                       '%s:%d' % (U, LE['ln']),
-                       'L-beta member %s is weighted with the fluorescence cross section just above the %s edge; its initial '
-                       'vacancy is %s' % (nm, names.shell_by_value.get(sh), src), why='paired with its own shell %s' % src)
-        missing = sorted(lb_required - members_here)
-        chk.decide(not missing, 'LB-members', U, 'lb_pairs', 'aliases', '%s:%d' % (U, LE['ln']),
-                   'L-beta members named LB<n> in xraylib.h but absent from the average: %s' % missing,
-                   why='all %d LB<n> aliases are members' % len(lb_required))
-    else:
-        chk.bad('LB-energy', U, 'LineEnergy', 'LB_LINE shape', '%s:%d' % (U, LE['ln']), 'expected exactly one successful LB path, found %d' % len(ps))
+    members_here = lbgroup(prog, chk, LE, names, U)
 
     # ---- LineEnergyComposed -----------------------------------------------------------------------
     # Specification (members i = 1, 2 with energy E_i >= 0, 0 meaning "no energy", and rate R_i >= 0):
@@ -292,6 +253,148 @@ def lb_lists(prog, names):
         if mem:
             out['%s:%s' % (unit, f['name'])] = mem
     return out
+
+
+def lbgroup(prog, chk, LE, names, U):
+    """L-beta: the members and their shells are the rows of the constant table lb_pairs; the loop must visit every row; one generic
+    member takes part iff it has an energy, with weight CS_FluorLine(Z, line, EdgeEnergy(Z, shell) + 0.1); the result is the weighted
+    mean, else the plain mean of the members that have an energy, else an error."""
+    from xvlib.absint import Interp
+    zname = LE['params'][0]['name']
+    g = prog.global_def('lb_pairs', unit=U, required=False)
+    loc0 = '%s:%d' % (U, LE['ln'])
+    if g is None or 'init' not in g:
+        chk.bad('LB-energy', U, 'LineEnergy', 'LB_LINE shape', loc0, 'the member table lb_pairs was not found')
+        return set()
+    rows = inittab.evaluate(g['init'])
+    pairs = []
+    for r_ in rows:
+        vals = [x.value if hasattr(x, 'value') else x for x in r_]
+        pairs.append((int(vals[0]), int(vals[1])))
+    loops = [n for n in walk(LE['body']) if n.get('k') == 'ForStmt' and any(
+        x.get('k') == 'DeclRefExpr' and x.get('name') == 'lb_pairs' for x in walk(n.get('body') or {}))]
+    if len(loops) != 1:
+        chk.bad('LB-energy', U, 'LineEnergy', 'LB_LINE shape', loc0, 'expected one loop over lb_pairs in LineEnergy, found %d' % len(loops))
+        return set()
+    lp = loops[0]
+    loc = '%s:%d' % (U, lp['ln'])
+    cond = lp.get('cond') or {}
+    hi = cond['c'][1].get('v') if cond.get('c') and isinstance(cond['c'][1].get('v'), int) else None
+    init0 = any(a.get('k') == 'BinaryOperator' and a.get('op') == '=' and a['c'][1].get('v') == 0 for a in walk(lp.get('init') or {}))
+    chk.decide(init0 and cond.get('op') == '<' and hi == len(pairs), 'LB-energy', U, 'LineEnergy', 'LB_LINE all rows', loc,
+               'the loop must visit every row of lb_pairs (%d rows); it runs from %s to %s %s' % (len(pairs), 0 if init0 else '?', cond.get('op'), hi),
+               why='loop over the %d rows of lb_pairs' % len(pairs))
+    ids = {}
+    for n in walk(LE['body']):
+        if n.get('k') == 'DeclStmt':
+            for d in n.get('decls', []):
+                ids[d['name']] = d['id']
+
+    def frag(stmt):
+        f2 = dict(LE)
+        f2['body'] = stmt if stmt.get('k') == 'CompoundStmt' else {'k': 'CompoundStmt', 'c': [stmt]}
+        it = Interp(prog, f2)
+        it.assume_patterns = []
+        it.call_ranges = {'LineEnergy': Interval(Fraction(0), None), 'CS_FluorLine': Interval(Fraction(0), None)}
+        return it, it.run()
+    it, paths = frag(lp['body'])
+    ivar = [x for x in walk(lp.get('inc') or {}) if x.get('k') == 'DeclRefExpr'][0]['name']
+    Ei = Rat.sym('LineEnergy(%s,lb_pairs[%s].line,0)' % (zname, ivar))
+    Wi = Rat.sym('CS_FluorLine(%s,lb_pairs[%s].line,EdgeEnergy(%s,lb_pairs[%s].shell,0) + 1/10,0)' % (zname, ivar, zname, ivar))
+    # which locals accumulate: weight sum / weighted sum / energy sum / count, identified by what a present member adds
+    seen = set()
+    for p in paths:
+        if p.status not in ('end', 'cont', 'run'):
+            continue
+        eiv = it.interval_of(Ei, p)
+        present = eiv.lo is not None and (eiv.lo > 0 or (eiv.lo == 0 and eiv.los))
+        absent = eiv.hi is not None and eiv.hi <= 0
+        delta = {}
+        for nm, vid in ids.items():
+            v = p.env.get(vid)
+            if v is not None and nm not in (ivar, 'lE', 'tmp1', 'rr', 'line_energy', 'temp_line'):
+                dv = v - Rat.sym(nm)
+                if not dv.is_zero():
+                    delta[nm] = dv
+        if absent:
+            seen.add('absent')
+            chk.decide(not delta, 'LB-energy', U, 'LineEnergy', 'LB_LINE member without energy', loc,
+                       'a member line without an energy must not take part: neither its cross section nor a zero energy may be added; it changes %s' % sorted(delta),
+                       why='skipped')
+        elif present:
+            seen.add('present')
+            got = sorted(d.canon() for d in delta.values())
+            want = sorted([Wi.canon(), (Ei * Wi).canon(), Ei.canon(), '1'])
+            chk.decide(got == want, 'LB-energy', U, 'LineEnergy', 'LB_LINE member with energy', loc,
+                       'a member with an energy must add its weight CS_FluorLine(Z, line, EdgeEnergy(Z, shell) + 0.1), energy x weight, its energy and a count of one; '
+                       'it adds %s' % got, why='adds CS_i, E_i CS_i, E_i and 1')
+        else:
+            seen.add('untested')
+            chk.bad('LB-energy', U, 'LineEnergy', 'LB_LINE member presence-untested', loc,
+                    'the accumulation does not test whether the member line has an energy: a member with a cross section but no energy pulls the mean '
+                    'towards 0 (L-beta of Os came out as 10.2997 keV instead of 10.413 keV)')
+    chk.decide('present' in seen, 'LB-energy', U, 'LineEnergy', 'LB_LINE shape', loc, 'no path of the loop body adds a member', why='generic member analysed')
+    # the statement after the loop
+    parent = None
+    for n in walk(LE['body']):
+        if n.get('k') == 'CompoundStmt':
+            kids = n.get('c', [])
+            for j, k_ in enumerate(kids):
+                if k_ is lp and j + 1 < len(kids):
+                    parent = kids[j + 1]
+    if parent is None:
+        chk.bad('LB-energy', U, 'LineEnergy', 'LB result', loc, 'cannot find the statement that turns the sums into the result')
+    else:
+        # roles of the accumulators, from the present-member path
+        roles = {}
+        for p in paths:
+            eiv = it.interval_of(Ei, p)
+            if p.status in ('end', 'cont', 'run') and eiv.lo is not None and (eiv.lo > 0 or (eiv.lo == 0 and eiv.los)):
+                for nm, vid in ids.items():
+                    v = p.env.get(vid)
+                    if v is None:
+                        continue
+                    dv = (v - Rat.sym(nm)).canon()
+                    for role, w in (('W', Wi.canon()), ('EW', (Ei * Wi).canon()), ('E', Ei.canon()), ('N', '1')):
+                        if dv == w and nm not in (ivar, 'lE', 'tmp1'):
+                            roles[role] = nm
+        it2, rp = frag(parent)
+        kinds, okall = set(), len(roles) == 4
+        if okall:
+            W, EW, E_, N = (Rat.sym(roles[k]) for k in ('W', 'EW', 'E', 'N'))
+            for p in rp:
+                if p.ret is None:
+                    continue
+                w = it2.interval_of(W, p)
+                nn = it2.interval_of(N, p)
+                if w.lo is not None and (w.lo > 0 or (w.lo == 0 and w.los)):
+                    kinds.add('weighted')
+                    okall = okall and p.ret.equals(EW / W)
+                elif nn.lo is not None and nn.lo >= 1:
+                    kinds.add('mean')
+                    okall = okall and p.ret.equals(E_ / N)
+                else:
+                    kinds.add('error')
+                    okall = okall and it2.is_zero(p.ret, p) and bool(sets_error(p))
+        chk.decide(okall and kinds == {'weighted', 'mean', 'error'}, 'LB-energy', U, 'LineEnergy', 'LB result', '%s:%d' % (U, parent['ln']),
+                   'after the loop: weight sum > 0 -> weighted sum / weight sum; else members with an energy exist -> energy sum / count; else error. '
+                   'Found outcomes %s (accumulators %s)' % (sorted(kinds), roles), why='weighted mean, else plain mean, else error')
+    # members and their shells
+    members_here = set()
+    for lval, sh in pairs:
+        nm = names.line_by_value.get(lval)
+        members_here.add(nm)
+        src = names.parse_line(nm)[0] if nm and names.parse_line(nm) else None
+        chk.decide(src is not None and names.shell_value.get(src) == sh, 'LB-member-shell', U, 'lb_pairs', '%s_LINE' % nm, loc0,
+                   'L-beta member %s is weighted with the fluorescence cross section just above the %s edge; its initial '
+                   'vacancy is %s' % (nm, names.shell_by_value.get(sh), src), why='paired with its own shell %s' % src)
+    lb_aliases = sorted(a for a in names.alias if a.startswith('LB') and a[2:].isdigit())
+    lb_required = {names.alias[a] for a in lb_aliases}
+    missing = sorted(lb_required - members_here)
+    chk.decide(not missing, 'LB-members', U, 'lb_pairs', 'aliases', loc0,
+               'L-beta members named LB<n> in xraylib.h but absent from the average: %s' % missing,
+               why='all %d LB<n> aliases are members' % len(lb_required))
+    return members_here
 
 
 def kgroup(prog, chk, LE, names, rates_present, U):
